@@ -73,15 +73,61 @@ class DecoderModel:
             e = an.rvalue_expr(d[2].rv, d[0], d[1])
             p = ok_payload(strip(e))
             if p is not None and same_value(p, outer_expr):
-                # the one that is mutably borrowed is the cursor
+                # the one that is mutably borrowed is the cursor (the earliest, if it is handed on by value later)
                 if any(ev["kind"] == "mutcall" for evs2 in an.events(l, False).values() for ev in evs2):
-                    self.payload_local = l
+                    if self.payload_local is None or cfg.dominates(d[0], an.unique_def(self.payload_local)[0]) and d[0] != an.unique_def(self.payload_local)[0]:
+                        self.payload_local = l
         if self.payload_local is None:
             self.problem("cannot identify the payload cursor (the slice returned by the outer header read)")
             return
+        # ---- the cursor may be handed on by value (`fn pairs(mut payload: &[u8])` inlined): the copy is the cursor from then on
+        self.cursor_chain = [self.payload_local]
+        grown = True
+        while grown and len(self.cursor_chain) < 6:
+            grown = False
+            last = self.cursor_chain[-1]
+            for l, decl in enumerate(fn.locals):
+                if l <= fn.arg_count or l in self.cursor_chain or decl["ty"]["s"] != "&[u8]":
+                    continue
+                d = an.unique_def(l)
+                # l = copy/move (.. = copy/move last), through temporaries
+                cur, derived = l, False
+                for _ in range(6):
+                    dd = an.unique_def(cur)
+                    rv = getattr(dd[2], "rv", None) if dd is not None else None
+                    if rv is not None and rv.kind == "ref" and not rv.j.get("mut") and rv.place.proj == ["deref"]:
+                        cur = rv.place.local  # `&*slice`: a reborrow is a copy of a shared slice reference
+                    elif rv is None or rv.kind != "use" or rv.ops[0].kind not in ("copy", "move") or not rv.ops[0].place.is_local():
+                        break
+                    else:
+                        cur = rv.ops[0].place.local
+                    if cur == last:
+                        derived = True
+                        break
+                if not derived:
+                    continue
+                if not any(ev["kind"] == "mutcall" for evs2 in an.events(l, False).values() for ev in evs2):
+                    continue
+                # the previous cursor is dead afterwards
+                later = [ev for evs2 in an.events(last, False).values() for ev in evs2 if ev["kind"] in ("mutcall", "readcall", "write") and (cfg.reaches(d[0], ev["bb"]) and ev["bb"] != d[0])]
+                if later:
+                    continue
+                self.cursor_chain.append(l)
+                grown = True
+                break
         # ---- every event on the payload cursor
         self.pevents = []
-        pe = an.events(self.payload_local, False)
+        pe = {}
+        for n, cl in enumerate(self.cursor_chain):
+            for bb, lst in an.events(cl, False).items():
+                for ev in lst:
+                    if n > 0 and ev["kind"] == "def":
+                        continue
+                    if n < len(self.cursor_chain) - 1 and ev["kind"] in ("move", "read") :
+                        continue
+                    pe.setdefault(bb, []).append(ev)
+        for bb in pe:
+            pe[bb].sort(key=lambda ev: ev["idx"])
         for bb in sorted(pe, key=lambda b: cfg.rpo().index(b) if b in cfg.rpo() else 10**6):
             for ev in pe[bb]:
                 if ev["kind"] in ("mutcall", "readcall", "write", "escape", "move", "read"):
@@ -149,6 +195,15 @@ class DecoderModel:
             self.problem("no dispatch on the key inside the loop")
 
     # -- helpers ----------------------------------------------------------
+    def holds_content(self, local, bb, idx):
+        """is `local`, at (bb, idx), the map filled by the pair loop (possibly
+        moved there through Ok(..)/`?`/plain moves)?"""
+        if local == self.content_local:
+            return True
+        from rules.typestate import value_chain
+        ch = value_chain(self.an, bb, idx, local, stop=lambda l: l == self.content_local)
+        return bool(ch)
+
     def is_key(self, e):
         """does e denote the key slice of the current iteration?"""
         es = strip(e)
